@@ -265,7 +265,7 @@ Definition combine (is_and : bool) (acc : option mdd) (x : option mdd) : option 
 (** or / and / expr descent; [fuel] bounds the nesting and the number of operands (the input length suffices) *)
 Fixpoint parse_or (fuel : nat) (c : cursor) : pres (option mdd * list wkind * cursor) :=
   match fuel with
-  | O => PErr {| e_kind := EValueEnd; e_start := c_pos c; e_len := 0 |}
+  | O => PErr {| e_kind := EPanic; e_start := 0; e_len := 0 |}    (* out of fuel: never (theorem no_panic) *)
   | S f =>
       let parse_expr (c : cursor) : pres (option mdd * list wkind * cursor) :=
         let c0 := c_eat_whitespace ws c in
